@@ -40,12 +40,19 @@ func c18Order(fails []*explore.Fail) []*explore.Fail {
 	return out
 }
 
-func c18Part(t *testing.T, name string, mk func(e explore.Env) (cases []c18Case, rule string)) explore.Part {
+// c18Part: when byMsg is set, mk itself keeps only the messages of this shard (message index
+// mod shards) and every listed case is executed here; that way a fault-free datagram count
+// that differs between worker processes cannot shift the case numbering.
+func c18Part(t *testing.T, name string, byMsg bool, mk func(e explore.Env) (cases []c18Case, rule string)) explore.Part {
 	return explore.Part{
 		Name: name,
 		Run: func(e explore.Env) *explore.Report {
 			cases, rule := mk(e)
-			rep := explore.RunCases(e, len(cases), 1, false, func(i int) explore.CaseResult {
+			re := e
+			if byMsg {
+				re.Shard, re.Shards = 0, 1
+			}
+			rep := explore.RunCases(re, len(cases), 1, false, func(i int) explore.CaseResult {
 				explore.MarkCurrent(e, name, cases[i])
 				o := c18Run(t, cases[i])
 				o.fails = c18Order(o.fails)
@@ -94,14 +101,18 @@ func c18Part(t *testing.T, name string, mk func(e explore.Env) (cases []c18Case,
 // c18Baseline learns how many datagrams the fault-free execution of a case uses.
 func c18Baseline(t *testing.T, c c18Case) [2]int {
 	c.Faults = nil
-	return c18Run(t, c).datagrams
+	n := c18Run(t, c).datagrams
+	if os.Getenv("VERIF_C18_DEBUG") != "" {
+		fmt.Fprintf(os.Stderr, "C18BASE %v %v\n", c, n)
+	}
+	return n
 }
 
 func TestVerifC18(t *testing.T) {
 	sim.InitCerts(t)
 	seed := func(e explore.Env) uint64 { return uint64(e.Seed) + 1 }
 	parts := []explore.Part{
-		c18Part(t, "lattice", func(e explore.Env) ([]c18Case, string) {
+		c18Part(t, "lattice", false, func(e explore.Env) ([]c18Case, string) {
 			k := 1
 			if e.Thorough() {
 				k = 2
@@ -112,11 +123,14 @@ func TestVerifC18(t *testing.T) {
 			}
 			return cases, fmt.Sprintf("every valid message that deviates from the default message in <= %d of %d dimensions %v (sizes %v), no network faults", k, len(c18DimNames), c18DimNames, c18DimSizes)
 		}),
-		c18Part(t, "faults", func(e explore.Env) ([]c18Case, string) {
+		c18Part(t, "faults", true, func(e explore.Env) ([]c18Case, string) {
 			var cases []c18Case
 			skip := map[string]bool{"abort": true}
 			msgs := c18Deviations(1, skip)
-			for _, m := range msgs {
+			for mi, m := range msgs {
+				if !e.Mine(mi) {
+					continue
+				}
 				base := c18Case{Msg: m, Seed: seed(e)}
 				n := c18Baseline(t, base)
 				for _, fm := range sim.AllSingleFaults(n, c18Fates) {
@@ -126,25 +140,32 @@ func TestVerifC18(t *testing.T) {
 				}
 			}
 			rule := fmt.Sprintf("every fault map with exactly 1 non-default fate %v on any datagram of the fault-free run (both directions, handshake and teardown included) of each of the %d messages that deviate from the default in <= 1 dimension (aborts excluded)", c18Fates, len(msgs))
-			if e.Thorough() {
-				// k = 2 over all datagrams of the small messages, over the first N of the bulky ones
-				const N = 20
-				for _, m := range msgs {
-					base := c18Case{Msg: m, Seed: seed(e)}
-					n := c18Baseline(t, base)
-					n[0], n[1] = min(n[0], N), min(n[1], N)
-					for _, fm := range sim.AllFaultMaps(n, c18Fates, 2) {
-						if len(fm) != 2 {
-							continue
-						}
-						c := base
-						c.Faults = fm
-						cases = append(cases, c)
-					}
-				}
-				rule += fmt.Sprintf("; plus every fault map with exactly 2 non-default fates among the first %d datagrams of each direction of the same messages", N)
-			}
 			return cases, rule
+		}),
+		c18Part(t, "faults-k2", false, func(e explore.Env) ([]c18Case, string) {
+			// N is capped, and fault-free counts below the cap are reproducible, so every worker
+			// builds the same list
+			N := 12
+			msgs := []c18Msg{{}}
+			if e.Thorough() {
+				N = 20
+				msgs = c18Deviations(1, map[string]bool{"abort": true})
+			}
+			var cases []c18Case
+			for _, m := range msgs {
+				base := c18Case{Msg: m, Seed: seed(e)}
+				n := c18Baseline(t, base)
+				n[0], n[1] = min(n[0], N), min(n[1], N)
+				for _, fm := range sim.AllFaultMaps(n, c18Fates, 2) {
+					if len(fm) != 2 {
+						continue
+					}
+					c := base
+					c.Faults = fm
+					cases = append(cases, c)
+				}
+			}
+			return cases, fmt.Sprintf("every fault map with exactly 2 non-default fates %v among the first %d datagrams of each direction (all datagrams when the exchange has fewer) of %d message(s) (default; thorough: every <= 1-dimension deviation, aborts excluded)", c18Fates, N, len(msgs))
 		}),
 		{
 			Name: "raw",
@@ -193,7 +214,54 @@ func TestVerifC18(t *testing.T) {
 				return &explore.Violation{Key: o.fails[0].Key, What: o.fails[0].What, Human: append([]string{c.String()}, o.transcript...)}
 			},
 		},
-		c18Part(t, "real-server", func(e explore.Env) ([]c18Case, string) {
+		{
+			Name: "raw-client",
+			Run: func(e explore.Env) *explore.Report {
+				cases, rule := c18RawCCases(e)
+				rep := explore.RunCases(e, len(cases), 1, false, func(i int) explore.CaseResult {
+					explore.MarkCurrent(e, "raw-client", cases[i])
+					o := c18RawCRun(t, cases[i])
+					o.fails = c18Order(o.fails)
+					if os.Getenv("VERIF_C18_DEBUG") != "" {
+						fmt.Fprintf(os.Stderr, "C18DBG raw-client | %v | %s", cases[i], o.class)
+						for _, f := range o.fails {
+							fmt.Fprintf(os.Stderr, " | FAIL %s: %.300s", f.Key, f.What)
+						}
+						fmt.Fprintln(os.Stderr)
+					}
+					cr := explore.CaseResult{Outcome: o.class, Execs: 1, Trans: int64(o.datagrams[0] + o.datagrams[1]), Replay: cases[i]}
+					if len(o.fails) > 0 {
+						cr.Fail = o.fails[0]
+						cr.Human = []string{cases[i].String()}
+						for _, f := range o.fails[1:] {
+							cr.Human = append(cr.Human, "also: "+f.Key+": "+f.What)
+						}
+						cr.Human = append(cr.Human, o.transcript...)
+					}
+					return cr
+				})
+				explore.ClearCurrent(e)
+				rep.Level = "fault_enumeration"
+				rep.Rule, rep.Bound = rule, rule
+				if len(cases) > 0 {
+					rep.Samples = []any{cases[0].String(), cases[len(cases)/2].String(), cases[len(cases)-1].String()}
+				}
+				return rep
+			},
+			Replay: func(e explore.Env, raw json.RawMessage) *explore.Violation {
+				var c c18RawCCase
+				if err := json.Unmarshal(raw, &c); err != nil {
+					t.Fatal(err)
+				}
+				o := c18RawCRun(t, c)
+				o.fails = c18Order(o.fails)
+				if len(o.fails) == 0 {
+					return nil
+				}
+				return &explore.Violation{Key: o.fails[0].Key, What: o.fails[0].What, Human: append([]string{c.String()}, o.transcript...)}
+			},
+		},
+		c18Part(t, "real-server", false, func(e explore.Env) ([]c18Case, string) {
 			var cases []c18Case
 			skip := map[string]bool{"abort": true}
 			k := 1
@@ -213,5 +281,16 @@ func TestVerifC18(t *testing.T) {
 			return cases, fmt.Sprintf("Server.ServeListener unchanged (no harness recover): the %d messages that deviate from the default in <= %d dimensions (aborts excluded), and every single-fault map on the default message", len(msgs), k)
 		}),
 	}
-	explore.Main("C18", parts, func(msg string) { t.Fatal(msg) })
+	// cheap, always-complete parts first; the fault enumerations use what is left of the deadline
+	order := []string{"lattice", "raw", "raw-client", "real-server", "faults", "faults-k2"}
+	var sorted []explore.Part
+	for _, n := range order {
+		for _, p := range parts {
+			if p.Name == n {
+				sorted = append(sorted, p)
+			}
+		}
+	}
+	explore.Must(len(sorted) == len(parts), "part order list incomplete")
+	explore.Main("C18", sorted, func(msg string) { t.Fatal(msg) })
 }
